@@ -55,7 +55,7 @@ def upload_and_api_faults(ctx: Ctx) -> None:
 
     S.install_step_observers()
     # (1) upload failure: every upload of the run raises; whichever step uploads first must make the call raise
-    for it in range(ctx.budget(9, 60)):
+    for it in range(ctx.budget(9, 40)):
         kind = ["dag", "chain", "link"][it % 3]
         try:
             if kind == "chain":
@@ -90,7 +90,7 @@ def upload_and_api_faults(ctx: Ctx) -> None:
                 ctx.violation("faults_upload", case, "raised error does not carry the original message 'VERIF-FAULT upload'", rr.error[-300:], "VERIF-FAULT upload")
     S.UPLOAD_FAULT.clear()
     # (2) missing api_data: prepared with api_data A; a run given api_data that lacks what the plan needs must raise
-    for _ in range(ctx.budget(6, 60)):
+    for _ in range(ctx.budget(6, 40)):
         uid = F.uniq("")
         cols = {f"ap{uid}_{i}": [ctx.rng.randint(0, 9) for _ in range(3)] for i in range(ctx.rng.randint(1, 2))}
         key = f"Key{uid}"
@@ -124,7 +124,7 @@ def run(ctx: Ctx) -> None:
         "be accepted by the Lean transition system, whose next loop head raises that step's error; non-trivial = failing step is not the first step of the plan "
         "or other steps are open when it fails"
     )
-    nplans = ctx.budget(14, 300)
+    nplans = ctx.budget(14, 120)
     lean_reqs: List[Dict[str, Any]] = []
     metas: List[Any] = []
     hangs = 0
